@@ -1347,6 +1347,11 @@ func (g *gen) writeBuiltinQuestionCall(b *buffer, n *a.Expr, depth uint32) error
 				recvName, recvName, recvName, scratchName)
 			return nil
 		}
+		if (t.IDWriteU8 < method.Ident()) && (method.Ident() <= t.IDWriteU64LE) {
+			// There's no C implementation (yet). Falling through would emit a
+			// call to a C function that doesn't exist.
+			return fmt.Errorf("cgen: io_writer.%s? is not implemented", method.Ident().Str(g.tm))
+		}
 
 	}
 	return errNoSuchBuiltin
